@@ -152,19 +152,21 @@ fn part_b(a: &Args, out: &mut Out, rng: &mut Rng) {
         let mut last_strategy = IncrementalStrategy::Error;
         let mut prev_ambiguous = false;   // the latest edit added a clause that was already stored: its inverse is ill-defined
         let mut prev: Option<(TT, u32, Vec<(Vec<i32>, ClauseApplication)>)> = None;
-        let steps = 1 + rng.below(4);
+        // mostly short histories; every eighth one is long enough to go round the bounded undo cache (10 entries) more than once
+        let steps = if i % 8 == 7 { 12 + rng.below(6) } else { 1 + rng.below(4) };
         for _ in 0..steps {
             // the stored CNF of the model (simplified clause list) is what removals refer to
             let stored: Vec<Vec<i32>> = d.inter_graph.cnf_clauses.clone();
             let kind = rng.below(100);
             let (ops, want_tt, want_n, label): (Vec<(Vec<i32>, ClauseApplication)>, TT, u32, String);
             let mut step_is_inverse = false;
+            let mut once_more = false;
             if last_strategy == IncrementalStrategy::Undo && prev.is_some() && !prev_ambiguous && rng.chance(0.5) {
                 // the edit that was just answered from the undo cache, once more: its clauses are already added / removed,
                 // so nothing changes (it must not be taken for the inverse of anything)
                 let (_, _, pops) = prev.clone().unwrap();
                 label = format!("the latest edit once more {:?}", pops.iter().map(|(c, ap)| format!("{}{:?}", if *ap == ClauseApplication::Add { "+" } else { "-" }, c)).collect::<Vec<_>>());
-                ops = pops; want_tt = cur_tt.clone(); want_n = cur_n;
+                ops = pops; want_tt = cur_tt.clone(); want_n = cur_n; once_more = true;
             } else if kind < 10 && prev.is_some() && !prev_ambiguous {
                 // the inverse of the latest edit (should hit the undo cache)
                 let (ptt, pn, pops) = prev.clone().unwrap();
@@ -177,14 +179,13 @@ fn part_b(a: &Args, out: &mut Out, rng: &mut Rng) {
                 // "the formula without it": every copy of the clause goes
                 let cset: Clause = c.iter().copied().collect();
                 let rest: Vec<Clause> = stored.iter().map(|x| x.iter().copied().collect::<Clause>()).filter(|x| *x != cset).collect();
-                // removing exactly what the latest edit added is the inverse of that edit: all previous answers come back
-                // removing a clause that the latest edit added although it was already stored: plain removal and inverse disagree
-                if prev_ambiguous && prev.as_ref().map(|(_, _, pops)| pops.iter().any(|(pc, ap)| *ap == ClauseApplication::Add && pc.iter().copied().collect::<Clause>() == cset)).unwrap_or(false) { continue; }
-                let is_inverse = !prev_ambiguous && prev.as_ref().map(|(_, _, pops)| {
-                    // the effective part of the latest edit (tautologies are dropped by the edit)
-                    let eff: Vec<&(Vec<i32>, ClauseApplication)> = pops.iter().filter(|(pc, _)| !pc.iter().any(|l| pc.contains(&-l))).collect();
-                    eff.len() == 1 && eff[0].1 == ClauseApplication::Add && eff[0].0.iter().copied().collect::<Clause>() == cset }).unwrap_or(false);
-                if is_inverse { step_is_inverse = true; let (ptt, pn, _) = prev.clone().unwrap(); want_tt = ptt; want_n = pn; } else { want_tt = cnf_tt(cur_n, &rest); want_n = cur_n; }
+                // removing exactly what the latest edit added (as a set of clauses) is the inverse of that edit: all previous answers
+                // come back; removing a clause that the latest edit added although it was already stored is ambiguous
+                match relation_to_latest(&prev, prev_ambiguous, &[], &[cset.clone()]) {
+                    Rel::Skip => continue,
+                    Rel::Inverse => { step_is_inverse = true; let (ptt, pn, _) = prev.clone().unwrap(); want_tt = ptt; want_n = pn; }
+                    Rel::Plain => { want_tt = cnf_tt(cur_n, &rest); want_n = cur_n; }
+                }
                 label = format!("remove {:?}", c);
                 ops = vec![(c, ClauseApplication::Remove)];
             } else if kind < 53 && stored.len() >= 2 {
@@ -273,6 +274,9 @@ fn part_b(a: &Args, out: &mut Out, rng: &mut Rng) {
             prev_ambiguous = before.2.iter().any(|(c, ap)| *ap == ClauseApplication::Add && { let cs: Clause = c.iter().copied().collect(); stored.iter().any(|x| x.iter().copied().collect::<Clause>() == cs) });
             // removing a stored clause that the latest edit had (re-)added is neither a plain removal nor a clean inverse
             if prev_ambiguous && before.2.iter().any(|(_, ap)| *ap == ClauseApplication::Remove) { prev_ambiguous = false; }
+            // an edit without effect (clauses already added / removed): "its inverse" is ill-defined - the code answers it with the
+            // state before the no-op, the first half of the property with the effect of the inverted clauses
+            if once_more { prev_ambiguous = true; }
             prev = Some(before);
             cur_tt = want_tt; cur_n = want_n;
         }
